@@ -128,6 +128,9 @@ META["rule"] += (
 META["rule"] += (
     " " + "Added after the eighth round: self entries of the information transfer in lag mode 'all' compared wherever the reference is defined; one data object serves all four climate networks (any order) in half of the cases.")
 
+META["rule"] += (
+    " " + 'Added after the ninth round: records whose level is up to 2^22 spreads (cross-correlation affine relation).')
+
 # --------------------------------------------------------------------------
 # helpers
 # --------------------------------------------------------------------------
@@ -255,13 +258,19 @@ def has_const_window(data, max_lag):
     return False
 
 
-def affine_map(r, data, exact=False):
+def affine_map(r, data, exact=False, levels=False):
     N = data.shape[1]
     a = 2.0 ** r.integers(-2, 3, size=N)
     if exact:
         b = r.integers(-8, 9, size=N).astype(float)
     else:
         b = r.integers(-8, 9, size=N) / 4.0
+    if levels and not exact and r.random() < 0.35:
+        # records whose level is large compared with their spread
+        # (pressure in Pa, temperatures in K, counters): the shift is a
+        # whole number of up to 2^22 spreads
+        b = b * 2.0 ** r.integers(14, 23, size=N) * np.maximum(
+            1.0, np.round(np.nanstd(data, axis=0) * a))
     return data * a + b, a, b
 
 
@@ -450,7 +459,9 @@ def fam_cc(ctx, mods, r, k, cid):
     Lq = r.integers(0, 6, size=(N, N)).astype(np.int8)
     check_symmetrize(ctx, ca, Sq, Lq, cid, {"N": N}, "synthetic")
     # ---- affine maps (power-of-two scale, dyadic shift) ----------------
-    d2, a, b = affine_map(r, data)
+    d2, a, b = affine_map(r, data, levels=True)
+    if np.abs(b).max() > 1e3:
+        ctx.count("cc_records_with_a_large_level")
     ok, A2 = ctx.call(CouplingAnalysis(d2, silence_level=3).
                       cross_correlation, tau_max=tau_max, lag_mode="all")
     ctx.evals()
